@@ -132,7 +132,7 @@ def run_case(case):
     for ci, cfg_ in enumerate(_configs(t, outs, leaves, m, case["light"], case.get("leafout", False))):
         listing, order, aggname, chunk, dtype = cfg_[:5]
         cont = cfg_[5] if len(cfg_) > 5 else "list"
-        vals = P.build_torch(prog, lv, dtype)
+        vals = P.build_torch(prog, lv, dtype, layout="f" if ci % 3 == 1 else "c")  # every third configuration: column-major leaves
         if not fwd_checked:
             if not P.forward_agrees(vals, ref, dtype):
                 raise RuntimeError("harness: reference forward values disagree with torch: " + P.prog_str(prog, outs))
